@@ -15,9 +15,10 @@ import (
 const sentinel = uint64(0xDEADBEEFCAFEF00D)
 
 // arena lays out z and x (and y) according to layout and returns fresh slices.
-//   0: z, x, y disjoint      1: z == x (in place)      2: z == y (in place)
-//   10+k: z = buf[k:k+n], x = buf[0:n]  (destination above the source; shl)
-//   20+k: z = buf[0:n],   x = buf[k:k+n] (destination below the source; shr)
+//
+//	0: z, x, y disjoint      1: z == x (in place)      2: z == y (in place)
+//	10+k: z = buf[k:k+n], x = buf[0:n]  (destination above the source; shl)
+//	20+k: z = buf[0:n],   x = buf[k:k+n] (destination below the source; shr)
 type arena struct {
 	buf     []Word
 	z, x, y []Word
